@@ -346,7 +346,7 @@ func r6C09(c *Ctx) {
 		// R9.8: wherever the list is not the step's own, the weight is known to be set
 		own, always := true, true
 		desc := ""
-		for _, lf := range Leaves(Forwarded(site.Args[mi]), site.Instr.Block()) {
+		for _, lf := range LeavesDeep(Forwarded(site.Args[mi]), site.Instr.Block()) {
 			if isOwn(lf.V) {
 				continue
 			}
@@ -387,7 +387,7 @@ func r6C13(c *Ctx) {
 		}
 		n++
 		bad := ""
-		for _, lf := range Leaves(Forwarded(site.Args[mi]), site.Instr.Block()) {
+		for _, lf := range LeavesDeep(Forwarded(site.Args[mi]), site.Instr.Block()) {
 			root, path := TermOf(lf.V).FieldPath()
 			_, rootIsParam := root.V.(*ssa.Parameter)
 			if !(rootIsParam && len(path) > 0 && path[len(path)-1] == "Matches") {
@@ -2516,11 +2516,29 @@ func r9C03(c *Ctx) {
 func r9C13(c *Ctx) {
 	p := c.Prog
 	c.Rule("R13.13", "the builders of the desired HTTPRoute rules visit every rule of the route", 3)
-	gp := "pkg/trafficrouting/network/gateway.gatewayController."
-	for _, name := range []string{"buildCanaryHeaderHttpRoutes", "buildCanaryWeightHttpRoutes", "buildDesiredHTTPRoute"} {
-		fn := p.Func(gp + name)
-		if fn == nil {
-			c.Unresolved("R13.13", gp+name)
+	// every function of the provider's package that takes the route's rules and returns rules
+	isRules := func(t types.Type) bool {
+		ts := t.String()
+		return strings.HasPrefix(ts, "[]") && strings.HasSuffix(ts, "HTTPRouteRule")
+	}
+	found := 0
+	for _, fn := range p.RepoFuncs() {
+		if fn.Pkg == nil || !strings.HasSuffix(fn.Pkg.Pkg.Path(), "pkg/trafficrouting/network/gateway") {
+			continue
+		}
+		takes, gives := false, false
+		for _, par := range fn.Params {
+			if isRules(par.Type()) {
+				takes = true
+			}
+		}
+		res := fn.Signature.Results()
+		for k := 0; k < res.Len(); k++ {
+			if isRules(res.At(k).Type()) {
+				gives = true
+			}
+		}
+		if !takes || !gives {
 			continue
 		}
 		bad := ""
@@ -2533,25 +2551,43 @@ func r9C13(c *Ctx) {
 				loops++
 			}
 		}
-		c.Ob("R13.13", name+"#visits-every-rule", fn.Pos(), (loops > 0 || bad != "") && bad == "", "the rule loop ends by exhaustion only", bad+ifs(loops == 0 && bad == "", "no loop over the rules found in front of a return"))
+		if loops == 0 && bad == "" {
+			continue // a dispatcher: no loop of its own
+		}
+		found++
+		c.Ob("R13.13", shortName(FuncName(fn))+"#visits-every-rule", fn.Pos(), bad == "", "the rule loop ends by exhaustion only", bad)
+	}
+	if found == 0 {
+		c.Unresolved("R13.13", "functions of the gateway package from []HTTPRouteRule to []HTTPRouteRule with a loop")
 	}
 }
 
-// stepWeightNeverDropped: wherever a *int32 is either nil or a fresh pointer to a number scaled
-// from strategy.Traffic, the nil definitions are selected only where Traffic itself is nil.
+// stepWeightNeverDropped: wherever a value is either an "absent" marker (nil for a *int32, the
+// constant -1 for an integer) or a number scaled from a traffic percentage held in a *string, the
+// absent marker is selected only where that *string is nil.
 func stepWeightNeverDropped(c *Ctx, rule string, pkgs []string, floor int) {
 	p := c.Prog
 	c.Rule(rule, "a configured traffic percentage always yields a weight", floor)
-	isPtrOfTraffic := func(v ssa.Value) bool {
-		call, ok := v.(*ssa.Call)
-		if !ok {
-			return false
+	isScale := func(t *Term) bool {
+		return (t.Op == "call" || t.Op == "extract") && NameMatch(t.Name, "intstr.GetScaledValueFromIntOrPercent")
+	}
+	// the *string values the scaled number v is computed from
+	sources := func(v ssa.Value) []ssa.Value {
+		if call, ok := v.(*ssa.Call); ok {
+			if g := call.Call.StaticCallee(); g != nil && g.Pkg != nil && (strings.HasSuffix(g.Pkg.Pkg.Path(), "k8s.io/utils/pointer") || strings.HasSuffix(g.Pkg.Pkg.Path(), "k8s.io/utils/ptr")) && len(call.Call.Args) == 1 {
+				v = call.Call.Args[0]
+			}
 		}
-		g := call.Call.StaticCallee()
-		if g == nil || g.Pkg == nil || !(strings.HasSuffix(g.Pkg.Pkg.Path(), "k8s.io/utils/pointer") || strings.HasSuffix(g.Pkg.Pkg.Path(), "k8s.io/utils/ptr")) || len(call.Call.Args) != 1 {
-			return false
+		if !SliceHas(v, isScale) && !SliceHasDeep(v, isScale) {
+			return nil
 		}
-		return SliceHas(call.Call.Args[0], MField("Traffic"))
+		var out []ssa.Value
+		for x := range BackwardSlice(v) {
+			if x.Type().String() == "*string" {
+				out = append(out, x)
+			}
+		}
+		return out
 	}
 	for _, fn := range p.RepoFuncs() {
 		in := false
@@ -2564,38 +2600,62 @@ func stepWeightNeverDropped(c *Ctx, rule string, pkgs []string, floor int) {
 			continue
 		}
 		bad := ""
-		var at *ssa.Phi
-		for _, b := range fn.Blocks {
-			for _, ins := range b.Instrs {
-				ph, ok := ins.(*ssa.Phi)
-				if !ok || ph.Type().String() != "*int32" {
-					continue
-				}
-				lvs := Leaves(ph, ph.Block())
-				has := false
-				for _, lf := range lvs {
-					if isPtrOfTraffic(lf.V) {
-						has = true
+		var at token.Pos
+		seenAny := false
+		judge := func(lvs []Leaf, ts string, pos token.Pos) {
+			var srcs []ssa.Value
+			for _, lf := range lvs {
+				srcs = append(srcs, sources(lf.V)...)
+			}
+			if len(srcs) == 0 {
+				return
+			}
+			isSrc := func(t *Term) bool {
+				for _, sv := range srcs {
+					if t.V == sv || t.String() == TermOf(sv).String() {
+						return true
 					}
 				}
-				if !has {
+				return false
+			}
+			if !seenAny {
+				at = pos
+			}
+			seenAny = true
+			for _, lf := range lvs {
+				t := TermOf(lf.V)
+				absent := t.Op == "const" && ((ts == "*int32" && t.Name == "nil") || (ts != "*int32" && t.Name == "-1"))
+				if !absent {
 					continue
 				}
-				if at == nil {
-					at = ph
-				}
-				for _, lf := range lvs {
-					if t := TermOf(lf.V); t.Op == "const" && t.Name == "nil" {
-						if !HasFact(lf.Facts, FNil(MField("Traffic"))) {
-							at = ph
-							bad = "the weight can stay absent on a path where strategy.Traffic is set: a legal percentage (\"0%\") is then treated like a step without weight — the scripts get -1, the Gateway provider builds no weight routes"
-						}
-					}
+				if !HasFact(lf.Facts, FNil(isSrc)) {
+					at = pos
+					bad = "the weight can stay absent (" + t.Name + ") on a path where the configured traffic percentage is set: a legal percentage (\"0%\") is then treated like a step without weight — the scripts get -1, the Gateway provider builds no weight routes"
 				}
 			}
 		}
-		if at != nil {
-			c.Ob(rule, FuncName(fn)+"#weight-absent-only-without-traffic", at.Pos(), bad == "", "nil is chosen for the weight only where strategy.Traffic is nil", bad)
+		isW := func(ts string) bool { return ts == "*int32" || ts == "int32" || ts == "int" || ts == "int64" }
+		for _, b := range fn.Blocks {
+			for _, ins := range b.Instrs {
+				ph, ok := ins.(*ssa.Phi)
+				if !ok || !isW(ph.Type().String()) {
+					continue
+				}
+				judge(Leaves(ph, ph.Block()), ph.Type().String(), ph.Pos())
+			}
+		}
+		// the same choice written as two returns of a helper
+		if res := fn.Signature.Results(); res.Len() == 1 && isW(res.At(0).Type().String()) {
+			var lvs []Leaf
+			for _, ret := range returnsOf(fn) {
+				if len(ret.Results) == 1 {
+					lvs = append(lvs, Leaves(ret.Results[0], ret.Block())...)
+				}
+			}
+			judge(lvs, res.At(0).Type().String(), fn.Pos())
+		}
+		if seenAny {
+			c.Ob(rule, FuncName(fn)+"#weight-absent-only-without-traffic", at, bad == "", "the absent marker is chosen for the weight only where the traffic percentage is nil", bad)
 		}
 	}
 }
@@ -2745,17 +2805,67 @@ func r9C18(c *Ctx) {
 		c.Unresolved("R18.13", "finalizeTrafficRouting: UpdateFinalizer(Remove, progressing finalizer)")
 		return
 	}
-	isErr := func(t *Term) bool { return t.V != nil && t.V.Type().String() == "error" }
-	isRet := func(in ssa.Instruction) bool { _, ok := in.(*ssa.Return); return ok }
-	reach, at := CanReach(Entry(fn), isRet, ReachOpts{CutEdge: func(b *ssa.BasicBlock, k int) bool {
-		return EdgeFactMatches(b, k, FTrue(MCall("errors.IsNotFound"))) ||
-			EdgeFactMatches(b, k, FFalse(MCall("controllerutil.ContainsFinalizer"))) ||
-			EdgeFactMatches(b, k, FNil(MResult("util.UpdateFinalizer", 0))) ||
-			EdgeFactMatches(b, k, FNotNil(isErr))
-	}})
-	detail := ""
-	if reach {
-		detail = "the return at " + p.Pos(at.Pos()) + " can be reached with a nil error although the TrafficRouting was found, may still carry progressing.rollouts.kruise.io/<rollout>, and no removal succeeded: the Rollout finishes its teardown and drops its own finalizer while its marker stays on the TrafficRouting, which can then never be deleted"
+	// a helper of the package that fetches the object and answers a nil object only for not-found
+	nilObjMeansNotFound := func(h *ssa.Function) bool {
+		if h == nil || len(h.Blocks) == 0 || h.Pkg != fn.Pkg || h.Signature.Results().Len() != 2 {
+			return false
+		}
+		okAll, n := true, 0
+		for _, ret := range returnsOf(h) {
+			if len(ret.Results) != 2 {
+				continue
+			}
+			for _, lf := range Leaves(ret.Results[0], ret.Block()) {
+				if t := TermOf(lf.V); !(t.Op == "const" && t.Name == "nil") {
+					continue
+				}
+				n++
+				errNonNil := true
+				for _, le := range Leaves(ret.Results[1], ret.Block()) {
+					if t := TermOf(le.V); t.Op == "const" && t.Name == "nil" {
+						errNonNil = false
+					}
+				}
+				if !errNonNil && !HasFact(lf.Facts, FTrue(MCall("errors.IsNotFound"))) {
+					okAll = false
+				}
+			}
+		}
+		return okAll && n > 0
 	}
-	c.Ob("R18.13", "finalizeTrafficRouting#nil-means-released", fn.Pos(), !reach, "nil only for not-found / finalizer absent / removal succeeded", detail)
+	released := func(fs []Fact) bool {
+		if HasFact(fs, FTrue(MCall("errors.IsNotFound"))) || HasFact(fs, FFalse(MCall("controllerutil.ContainsFinalizer"))) || HasFact(fs, FNil(MResult("util.UpdateFinalizer", 0))) {
+			return true
+		}
+		// the name of the TrafficRouting is empty: there is none
+		if HasFact(fs, FOr(FCmp("==", func(t *Term) bool { return t.Op == "param" && t.V != nil && t.V.Type().String() == "string" }, MConst("")),
+			FCmp("==", MLen(func(t *Term) bool { return t.Op == "param" && t.V != nil && t.V.Type().String() == "string" }), MConst("0")))) {
+			return true
+		}
+		// the object handed back by a fetch helper is nil: not found
+		return HasFact(fs, FNil(func(t *Term) bool {
+			if t.Op != "extract" || t.Idx != 0 || t.Call == nil {
+				return false
+			}
+			return nilObjMeansNotFound(t.Call.Call.StaticCallee())
+		}))
+	}
+	bad := ""
+	n := 0
+	for _, ret := range returnsOf(fn) {
+		if len(ret.Results) != 1 {
+			continue
+		}
+		for _, lf := range LeavesDeep(Forwarded(ret.Results[0]), ret.Block()) {
+			t := TermOf(lf.V)
+			if !(t.Op == "const" && t.Name == "nil") {
+				continue
+			}
+			n++
+			if !released(lf.Facts) {
+				bad = "the nil returned at " + p.Pos(ret.Pos()) + " is reached although the TrafficRouting was found, may still carry progressing.rollouts.kruise.io/<rollout>, and no removal succeeded: the Rollout finishes its teardown and drops its own finalizer while its marker stays on the TrafficRouting, which can then never be deleted"
+			}
+		}
+	}
+	c.Ob("R18.13", "finalizeTrafficRouting#nil-means-released", fn.Pos(), n > 0 && bad == "", "nil only for not-found / finalizer absent / removal succeeded", bad+ifs(n == 0, "no nil return found"))
 }
